@@ -33,24 +33,18 @@ theorem keepalive_no_margin_at_1s : clientPeriod sec = sec := by decide
 /-! ## live peers are never expired -/
 
 /-- The peer's side of the story, independent of the server's bookkeeping: `r` / `p` are the times
-of the peer's latest request / packet; at every check the latest applicable transmission is recent
-enough.  Packets need one extra second because the server stores their time in whole seconds. -/
+of the peer's latest request / packet; at every check the latest applicable transmission is less
+than the timeout old. -/
 def PeerLive (cfg : Cfg) (recording : Bool) : Nat → Nat → List Ev → Prop
   | _, _, [] => True
   | _, p, .request t :: es => PeerLive cfg recording t p es
   | r, _, .packet t :: es => PeerLive cfg recording r t es
   | r, p, .tick now :: es =>
-    (if recording then now + sec ≤ p + cfg.read
-     else (now < r + cfg.idle ∨ now + sec ≤ p + cfg.idle)) ∧ PeerLive cfg recording r p es
-
-theorem floor_sec_le (t : Nat) : t / sec * sec ≤ t := Nat.div_mul_le_self t sec
-
-theorem lt_floor_sec_add (t : Nat) : t < t / sec * sec + sec := by
-  have := Nat.lt_div_mul_add (a := t) (b := sec) (by decide)
-  omega
+    (if recording then now < p + cfg.read
+     else (now < r + cfg.idle ∨ now < p + cfg.idle)) ∧ PeerLive cfg recording r p es
 
 theorem live_aux (cfg : Cfg) (recording : Bool) (hr : 0 < cfg.read) (hi : 0 < cfg.idle) :
-    ∀ (es : List Ev) (s : State) (r p : Nat), s.expired = false → s.lastReq = r → s.lastPkt = p / sec * sec →
+    ∀ (es : List Ev) (s : State) (r p : Nat), s.expired = false → s.lastReq = r → s.lastPkt = p →
       PeerLive cfg recording r p es → (run cfg recording s es).expired = false := by
   intro es
   induction es with
@@ -67,8 +61,6 @@ theorem live_aux (cfg : Cfg) (recording : Bool) (hr : 0 < cfg.read) (hi : 0 < cf
     | tick now =>
       simp only [PeerLive] at hl
       obtain ⟨hnow, hl⟩ := hl
-      have hfl := floor_sec_le p
-      have hlt := lt_floor_sec_add p
       have hexp : expires cfg recording s now = false := by
         unfold expires
         cases recording with
@@ -83,8 +75,8 @@ theorem live_aux (cfg : Cfg) (recording : Bool) (hr : 0 < cfg.read) (hi : 0 < cf
       exact ih _ r p (by simp) (by simpa using hreq) (by simpa using hpkt) hl
 
 /-- **live_never_expired**: a session whose peer keeps transmitting (keep-alive requests for PLAY,
-RTP/RTCP packets for PLAY and RECORD) within the margin is never expired, whatever the interleaving
-of requests, packets and check ticks, for all timeouts and all start times. -/
+RTP/RTCP packets for PLAY and RECORD) is never expired, whatever the interleaving of requests,
+packets and check ticks, for all timeouts and all start times. -/
 theorem live_never_expired (cfg : Cfg) (recording : Bool) (hr : 0 < cfg.read) (hi : 0 < cfg.idle)
     (t0 : Nat) (es : List Ev) (h : PeerLive cfg recording t0 t0 es) :
     (run cfg recording (start t0) es).expired = false :=
@@ -95,11 +87,11 @@ example : PeerLive { idle := 3 * sec, read := 2 * sec } false 0 0
     [.tick sec, .request sec, .tick (2 * sec), .request (2 * sec), .tick (3 * sec), .tick (4 * sec)] := by
   simp [PeerLive, sec]
 
-/-- The extra second is needed: with ReadTimeout = 1 s a publisher that sent a packet 100 ms before
-the check is expired all the same (packet at 1.9 s is stored as 1 s; check at 2.0 s). -/
-theorem record_margin_needed :
+/-- with packet times kept in nanoseconds a publisher with ReadTimeout = 1 s that sends a packet
+every 100 ms is live (the same timeline was timed out when the times were kept in whole seconds) -/
+theorem record_1s_live :
     (run { idle := 60 * sec, read := sec } true (start 0)
-      [.packet (sec / 2), .tick sec, .packet (sec + 9 * (sec / 10)), .tick (2 * sec)]).expired = true := by
+      [.packet (sec / 2), .tick sec, .packet (sec + 9 * (sec / 10)), .tick (2 * sec)]).expired = false := by
   decide
 
 /-! ## silent peers are closed within timeout + one check period -/
@@ -171,14 +163,12 @@ theorem silent_closed_within (cfg : Cfg) (recording : Bool) (period : Nat) (s : 
   obtain ⟨t, ht, hb⟩ := silent_aux cfg recording period s es clock hne hsp hreach
   exact ⟨t, ht, by omega⟩
 
-/-- the deadline is at most `timeout` after the peer's last transmission (truncation only makes it
-earlier) -/
-theorem deadline_le (cfg : Cfg) (recording : Bool) (r p : Nat) :
-    deadline cfg recording { lastReq := r, lastPkt := p / sec * sec } ≤
+/-- the deadline is exactly `timeout` after the peer's last transmission -/
+theorem deadline_eq (cfg : Cfg) (recording : Bool) (r p : Nat) :
+    deadline cfg recording { lastReq := r, lastPkt := p } =
       (if recording then p + cfg.read else max r p + cfg.idle) := by
-  have := floor_sec_le p
   unfold deadline
-  cases recording <;> simp <;> omega
+  cases recording <;> simp
 
 /-- `expiryTime` and `run` agree: the run is expired iff some tick found the timeout -/
 theorem run_expired_of_expiryTime (cfg : Cfg) (recording : Bool) :
